@@ -238,6 +238,15 @@ theorem digit_field_reads_back (w n : Nat) (h : n < 10 ^ w) :
 example : Json.tsFields 1000000000123456789 = ((2001, 9, 9), 1, 46, 40, 123456789) ∧
     Json.digitsVal (Json.pad 4 2001) = 2001 := by decide +kernel
 
+/-- the fraction reads back for every non-zero nanosecond count: the digits after the point (at most nine, trailing
+    zeros removed), padded on the right with `0` to nine, denote exactly the nanoseconds written -/
+theorem fraction_reads_back (f : Nat) (h0 : 0 < f) (h : f < 10 ^ 9) :
+    ∃ ds, Json.fracDigits f = 46 :: ds ∧ ds.length ≤ 9 ∧
+      Json.digitsVal (ds ++ List.replicate (9 - ds.length) 48) = f :=
+  Json.frac_reads_back f h0 h
+
+example : Json.fracDigits 120000000 = [46, 49, 50] := by decide +kernel
+
 /-! non-vacuity: 2000-02-29 and 1969-12-31 -/
 example : Json.civil 11016 = (2000, 2, 29) ∧ Json.daysFromCivil 2000 2 29 = 11016 ∧ Json.civil (-1) = (1969, 12, 31) := by
   decide +kernel
